@@ -3761,8 +3761,12 @@ class _DiskCacheWrapper:
         if cache_dir is not None:
             # diskcache expands "~" and environment variables. Do the same
             # here, so that the check below looks at the same directory.
+            # Make the path absolute: diskcache and the cleanup in __del__
+            # must keep working after the process changed its working
+            # directory.
             import os
-            cache_dir = os.path.expandvars(os.path.expanduser(str(cache_dir)))
+            cache_dir = os.path.abspath(
+                os.path.expandvars(os.path.expanduser(str(cache_dir))))
         if cache_dir is not None and Path(cache_dir).is_dir() and len(
                 list(Path(cache_dir).glob('*'))) > 0:
             if reuse:
